@@ -148,7 +148,21 @@ def add_text(reg):
     ok = SpecFun('utf8_ok', ['bytes'], 'bool')
     enc = SpecFun('utf8enc', ['str'], 'bytes')
     dec.unfold = lambda s: [z3.Implies(z3.InRe(s, ascii_re), z3.And(dec.decl(s) == s, ok.decl(s)))]
-    enc.unfold = lambda s: [z3.Implies(z3.InRe(s, ascii_re), enc.decl(s) == s)]
+    def is_decimal(t):
+        """the term is str(int): IntToStr(x), or If(c, IntToStr(x), '-' + IntToStr(y))"""
+        if z3.is_app_of(t, z3.Z3_OP_INT_TO_STR):
+            return True
+        if z3.is_app_of(t, z3.Z3_OP_ITE):
+            return is_decimal(t.arg(1)) and is_decimal(t.arg(2))
+        if z3.is_app_of(t, z3.Z3_OP_SEQ_CONCAT) and t.num_args() == 2 and z3.is_string_value(t.arg(0)):
+            return is_decimal(t.arg(1))
+        return False
+
+    def enc_unfold(s):
+        if is_decimal(s):
+            return [enc.decl(s) == s]           # decimal digits and '-' are ASCII
+        return [z3.Implies(z3.InRe(s, ascii_re), enc.decl(s) == s)]
+    enc.unfold = enc_unfold
     reg.specfuns.update(utf8dec=dec, utf8_ok=ok, utf8enc=enc)
     reg.specfuns['is_ascii'] = SpecFun('is_ascii', ['bytes'], 'bool', define=lambda s: z3.InRe(s, ascii_re))
     reg.assumptions.append('E-CODEC: bytes.decode("utf-8") is the identity on ASCII input and raises UnicodeDecodeError '
@@ -239,3 +253,81 @@ def add_ipaddress(reg):
     reg.externs['ipaddress.ip_address'] = ip_address
     reg.assumptions.append('ipaddress.ip_address accepts exactly the IPv4/IPv6 literals (uninterpreted predicate '
                            'is_ip_literal; bracketed spellings are not literals)')
+
+
+def add_http_ser(reg):
+    """Spec functions of the RFC 7230 message serialisation (independent of the code):
+    hdrs(K, m, n)   = the first n header fields  'K[j]: m[K[j]] CRLF'  in order (right recursion)
+    anylow(K, n, x) = some j < n has lower(K[j]) == x"""
+    S = z3.StringSort()
+    SS = z3.SeqSort(S)
+    A = z3.ArraySort(S, S)
+    hd = z3.Function('hdrs', SS, A, z3.IntSort(), S)
+
+    class Hdrs(object):
+        name, restype, define, pyimpl = 'hdrs', 'bytes', None, None
+        decl = hd
+
+        def apply(self, K, m, n):
+            return hd(K, m, n)
+
+        def unfold(self, K, m, n):
+            ax = []
+            for d in range(2):
+                k = n - d
+                key = K[k - 1]
+                ax.append(hd(K, m, k) == z3.If(k <= 0, z3.StringVal(''),
+                                               z3.Concat(hd(K, m, k - 1), key, z3.StringVal(': '), z3.Select(m, key),
+                                                         z3.StringVal('\r\n'))))
+            return ax
+    reg.specfuns['hdrs'] = Hdrs()
+    low = reg.specfuns['lower']
+    al = z3.Function('anylow', SS, z3.IntSort(), S, z3.BoolSort())
+
+    class AnyLow(object):
+        name, restype, define, pyimpl = 'anylow', 'bool', None, None
+        decl = al
+
+        def apply(self, K, n, x):
+            return al(K, n, x)
+
+        def unfold(self, K, n, x):
+            ax = []
+            for d in range(2):
+                k = n - d
+                ax.append(al(K, k, x) == z3.If(k <= 0, z3.BoolVal(False), z3.Or(al(K, k - 1, x), low.decl(K[k - 1]) == x)))
+            return ax
+    reg.specfuns['anylow'] = AnyLow()
+    jn = SpecFun('join', ['bytes', ('list', 'bytes')], 'bytes')
+
+    def units(t):
+        """[x1, .., xn] when the sequence term is literally a concatenation of units, else None"""
+        t = z3.simplify(t)
+        if z3.is_app_of(t, z3.Z3_OP_SEQ_UNIT):
+            return [t.arg(0)]
+        if z3.is_app_of(t, z3.Z3_OP_SEQ_EMPTY):
+            return []
+        if z3.is_app_of(t, z3.Z3_OP_SEQ_CONCAT):
+            out = []
+            for c in t.children():
+                u = units(c)
+                if u is None:
+                    return None
+                out += u
+            return out
+        return None
+
+    def join_unfold(sep, seq):
+        us = units(seq)
+        if us is None:
+            return []
+        if not us:
+            return [jn.decl(sep, seq) == z3.StringVal('')]
+        parts = [us[0]]
+        for u in us[1:]:
+            parts += [sep, u]
+        return [jn.decl(sep, seq) == (z3.Concat(*parts) if len(parts) > 1 else parts[0])]
+    jn.unfold = join_unfold
+    reg.specfuns['join'] = jn
+    reg.specfuns['dec'] = SpecFun('dec', ['int'], 'str', define=lambda n: z3.If(
+        n >= 0, z3.IntToStr(n), z3.Concat(z3.StringVal('-'), z3.IntToStr(-n))))
